@@ -166,19 +166,22 @@ def t_fixed_point_reaction(which, D, N, order):
     return e < 1e-10, f"{which} D={D} N={N} order={order}: constant equilibrium {[float(x) for x in np.asarray(u).reshape(u.shape[0], -1)[:, 0]]} moved by {e:.2e} in 3 steps"
 
 
-def t_fixed_point_poly(D, N, order, ustar):
-    """generic polynomial reaction with a non-zero constant term: D a0 u + c0 + c1 u + c2 u^2 = 0 at the constant state ustar"""
+def t_fixed_point_poly(D, N, order, ustar, z0=-0.02, radius=1.0):
+    """generic polynomial reaction with a non-zero constant term: D a0 u + c0 + c1 u + c2 u^2 = 0 at the constant state ustar;
+    z0 = D a0 dt is the value of lambda dt at the mean mode (z0 = -1, +1 put it ON the default contour circle: the half-shifted contour
+    points must not hit it), radius a non-default circle_radius of the contour"""
     ex, jnp = _ex()
     import exponax.stepper.generic as G
-    a0, c1, c2 = -0.2 / D, 0.3, -1.0
+    dt = 0.1
+    a0, c1, c2 = z0 / (D * dt), 0.3, -1.0
     c0 = -(D * a0 * ustar + c1 * ustar + c2 * ustar**2)
-    s = G.GeneralPolynomialStepper(D, 3.0, N, 0.1, linear_coefficients=(a0, 0.0, 0.02), polynomial_coefficients=(c0, c1, c2), order=order)
+    s = G.GeneralPolynomialStepper(D, 3.0, N, dt, linear_coefficients=(a0, 0.0, 0.02), polynomial_coefficients=(c0, c1, c2), order=order, circle_radius=radius)
     u = jnp.ones((1,) + (N,) * D) * ustar
     out = u
     for _ in range(3):
         out = s(out)
-    e = float(np.max(np.abs(np.asarray(out) - np.asarray(u))))
-    return e < 1e-10, f"GeneralPolynomialStepper D={D} N={N} order={order} c0={c0:.3f}: constant equilibrium {ustar} moved by {e:.2e} in 3 steps"
+    e = float(np.max(np.abs(np.asarray(out) - np.asarray(u)))) if bool(jnp.all(jnp.isfinite(out))) else float("inf")
+    return e < 1e-10, f"GeneralPolynomialStepper D={D} N={N} order={order} c0={c0:.3f} lambda_0 dt={z0} circle_radius={radius}: constant equilibrium {ustar} moved by {e:.2e} in 3 steps"
 
 
 TESTS = dict(mean=t_mean, work=t_work, fixed_point=t_fixed_point, fixed_point_poly=t_fixed_point_poly, fixed_point_reaction=t_fixed_point_reaction)
@@ -210,6 +213,10 @@ def witness(ctx):
         for order in ((1 + (ctx.seed + D) % 4,) if not deep else (1, 2, 3, 4)):
             for N in ((8,) if D < 3 else (6,)) + ((7,) if deep else ()):
                 ctx.check("fixed_point_poly", dict(D=D, N=N, order=order, ustar=0.5 if (D + ctx.seed) % 2 else -0.8))
+    # the mean-mode value of lambda dt exactly on the contour circle, and non-default contour radii, for every order
+    for order in (1, 2, 3, 4):
+        for z0, radius in ((-1.0, 1.0), (1.0, 1.0), (-0.02, 2.0), (-0.02, 0.5), (-2.0, 2.0)):
+            ctx.check("fixed_point_poly", dict(D=1, N=8, order=order, ustar=0.5, z0=z0, radius=radius))
     for N in ((6,) if not deep else (6, 7, 9)):
         ctx.check("work", dict(kind="projected", D=3, N=N, seed=ctx.seed))
     for D in (1, 2):
